@@ -99,6 +99,12 @@ def cases(tier, seed):
            # complex Hermitian h_0 whose explicit levels are real basis vectors, real right-hand side
            dict(n=6, blocks=[1], opts={}, layout="localized-complex"),
            dict(n=6, blocks=[1, 1], opts={"atol": 1e-6}, layout="localized-complex")]
+    kpm += [dict(n=8, blocks=[2], opts={"atol": 1e-5}, layout="spin-sigma-y"),
+            dict(n=8, blocks=[2, 2], opts={"atol": 1e-5}, layout="spin-sigma-y"),
+            dict(n=6, blocks=[2], opts={"atol": 1e-5}, layout="descending"),
+            dict(n=6, blocks=[2, 1], opts={"atol": 1e-5}, layout="descending"),
+            dict(n=7, blocks=[1], opts={"atol": 1e-5, "auxiliary_vectors": 3}, layout="descending"),
+            dict(n=7, blocks=[2], opts={"atol": 1e-5, "auxiliary_vectors": 2}, layout="descending")]
     if tier != "quick":
         kpm += [dict(n=8, blocks=[2, 1], opts={"atol": 1e-5}), dict(n=8, blocks=[1], opts={"atol": 1e-6, "eps": 0.05}),
                 dict(n=8, blocks=[2], opts={"auxiliary_vectors": 2})]
@@ -445,6 +451,25 @@ def run_kpm(case):
         h0[:nexp, :nexp] = np.diag(E[:nexp])
         h0[nexp:, nexp:] = Qc @ np.diag(E[nexp:]) @ Qc.conj().T
         Rm = np.eye(n)
+    special_Y = None
+    if case.get("layout") == "spin-sigma-y":
+        # real spin-degenerate H_0 = h (x) 1_2 with the explicit doublet written in the sigma_y eigenbasis and a
+        # spin-independent perturbation: complex right-hand sides for a real operator
+        m = n // 2
+        rng0 = np.random.default_rng([case["seed"], 92])
+        q, _ = np.linalg.qr(rng0.normal(size=(m, m)))
+        Em = np.array([float(x) for x in (0, 1, 3, 7, 12, 20)[:m]])
+        h0 = np.kron(q @ np.diag(Em) @ q.T, np.eye(2))
+        up, dn = np.array([1, 1j]) / np.sqrt(2), np.array([1, -1j]) / np.sqrt(2)
+        Rm = np.column_stack([np.kron(q[:, i], sp_) for i in range(m) for sp_ in (up, dn)])
+        E = np.repeat(Em, 2)
+        Mp = rng0.normal(size=(m, m))
+        special_Y = np.kron(Mp + Mp.T, np.eye(2))
+    elif case.get("layout") == "descending":
+        # explicit (and auxiliary) vectors listed in non-ascending energy order
+        order = list(range(nexp))[::-1] + [n - 1, nexp, n - 2] + [i for i in range(nexp + 1, n - 2)]
+        order = order[:n] if len(set(order)) == n else list(range(nexp))[::-1] + list(range(nexp, n))[::-1]
+        Rm, E = Rm[:, order], E[order]
     off = [0] + list(np.cumsum(blocks))
     eigvecs = tuple(Rm[:, off[b] : off[b + 1]] for b in range(len(blocks)))
     if isinstance(opts.get("auxiliary_vectors"), int):
@@ -460,6 +485,8 @@ def run_kpm(case):
         for b in range(nb):
             Eb = E[off[b] : off[b + 1]]
             Y = rng.normal(size=(blocks[b], n))
+            if special_Y is not None:
+                Y = eigvecs[b].conj().T @ special_Y
             X = solve(Y.copy(), (b, nb))
             res = np.diag(Eb) @ X - X @ h0 - Y @ P
             want = opts.get("atol", 1e-5)
